@@ -140,6 +140,21 @@ pub fn gen_filter(r: &mut Rng, trace: &[Timed]) -> FilterSpec {
             }
         }
     }
+    // both spellings of an embedded IPv4 address are candidates for the rules
+    let mut extra = vec![];
+    for a in &ips {
+        if let IpAddr::V6(v) = a {
+            let s = v.segments();
+            if s[..5] == [0, 0, 0, 0, 0] && (s[5] == 0xffff || s[5] == 0) {
+                extra.push(IpAddr::V4(std::net::Ipv4Addr::new((s[6] >> 8) as u8, s[6] as u8, (s[7] >> 8) as u8, s[7] as u8)));
+            }
+        }
+    }
+    for e in extra {
+        if !ips.contains(&e) {
+            ips.push(e);
+        }
+    }
     if ips.is_empty() {
         ips.push("10.0.0.1".parse().unwrap());
     }
@@ -239,6 +254,31 @@ impl Prop for C15 {
                 }
             }
             conns.push(c);
+        }
+        // IPv6 hosts sometimes use address forms that embed an IPv4 address (IPv4-mapped ::ffff:a.b.c.d,
+        // IPv4-compatible ::a.b.c.d, 6to4 2002:aabb:ccdd::): legal on the wire, and a filter must treat them
+        // as the IPv6 addresses the analyzer reports
+        if v6 && r.chance(1, 3) {
+            let form = r.below(3);
+            let remap = |e: &mut crate::pkt::Endpoint| {
+                if let IpAddr::V6(a) = e.ip {
+                    let s = a.segments();
+                    let (hi, lo) = (0x0a00u16, (s[7] & 0xff) as u16 | 0x0100);
+                    e.ip = IpAddr::V6(match form {
+                        0 => std::net::Ipv6Addr::new(0, 0, 0, 0, 0, 0xffff, hi, lo),
+                        1 => std::net::Ipv6Addr::new(0, 0, 0, 0, 0, 0, hi, lo),
+                        _ => std::net::Ipv6Addr::new(0x2002, hi, lo, 0, 0, 0, 0, 1),
+                    });
+                }
+            };
+            for c in conns.iter_mut() {
+                remap(&mut c.client);
+                remap(&mut c.server);
+                for st in c.steps.iter_mut() {
+                    remap(&mut st.seg.src);
+                    remap(&mut st.seg.dst);
+                }
+            }
         }
         let lens: Vec<usize> = conns.iter().map(|c| c.steps.len()).collect();
         let mode = *r.pick(&[MergeMode::Uniform, MergeMode::RoundRobin, MergeMode::Bursts]);
